@@ -2,7 +2,7 @@
 Model/Scan — the shared block-skipping select scan (`src/bits/scan.rs`), parametric in the block
 size, the prologue length and the per-word popcount function.
 -/
-import SuccinctlyVerif.Generated.Consts
+import SuccinctlyVerif.Generated.Common
 namespace SV
 
 /-- `scan_scalar(words, remaining)`: offset relative to the start of `words`. -/
